@@ -245,6 +245,32 @@ PROPS.update({
                         "recreate_classes, the msgpack hooks, the serpent float case, __setstate__ of URI/Proxy/Daemon and make_exception's body are covered by the "
                         "syntactic lemma and the bounded harness only (audit hook over ~50k quick / ~500k thorough decodes)"],
     },
+    "C10": {
+        "modules": ["specs.socket_model", "specs.pystruct", "specs.seqdict", "specs.opaque", "specs.daemon_model", "specs.stream_model", "contracts.streams"],
+        "contracts": ["Pyro5.server.Daemon._streamResponse#body", "Pyro5.server.DaemonObject.get_next_stream_item", "Pyro5.server.DaemonObject.close_stream",
+                      "Pyro5.server.Daemon._clientDisconnect#streams", "Pyro5.server.Daemon._housekeeping#streams",
+                      "Pyro5.client._StreamResultIterator.__next__", "Pyro5.client._StreamResultIterator.close"],
+        "harness": "replay/c10.py",
+        "explanation": "per-operation contracts over the stream table T : id -> (owner, created, linger start, iterator), stated for one arbitrary id (free constant = "
+                       "every id): registration adds exactly one entry (this connection, now, not lingering, the iterator) or nothing; get_next_stream_item returns "
+                       "item(it, pos) of THIS stream's iterator and advances only it, re-attaches a lingering stream and clears its linger clock, forgets the stream on "
+                       "any exception of next() (StopIteration included) and re-raises that exception, answers an unknown id with PyroError touching nothing; "
+                       "close_stream forgets exactly that id; _clientDisconnect (loop invariants) turns exactly this connection's streams into lingering ones with a "
+                       "clock value read during the disconnect, or forgets exactly those when linger is off, then runs the user hook once; _housekeeping (two loop "
+                       "invariants) only deletes, deletes only entries past lifetime / past linger at the clock read, and leaves none that was already expired when it "
+                       "began; the client iterator makes exactly one get_next_stream_item call per item for its own id, returns that call's result, ends (sticky "
+                       "StopIteration) exactly when the call raised StopIteration/GeneratorExit and stays open on any other error, close() sends at most one oneway "
+                       "close_stream and uses its own proxy only while in sequence.  End-to-end sequences (items at the client = the server iterator's items) follow "
+                       "from these per-call contracts plus C03 by induction on the number of fetches; that induction is argued in DESIGN.md, not machine-checked.",
+        "assumptions": ["sequential semantics: two workers / the housekeeper touching the stream table at the same time are NOT covered (the code has no common lock); "
+                        "the bounded harness drives steps one at a time as well",
+                        "next(it) on a server-side iterator = ghost sequence (item(it, pos), pos+1) or any Exception subclass at its end; generators raising "
+                        "BaseException subclasses that are not Exceptions are outside the model; time.time() is a non-decreasing positive real",
+                        "uuid4 ids are assumed not to collide with ids in the table (the frame condition for other streams is conditional on that)",
+                        "Proxy._pyroInvoke by its call-site interface (any result or any exception class); Proxy.__copy__/__enter__/__exit__ as declared; the stream branch "
+                        "of Daemon.handleRequest / Proxy._pyroInvoke (STRM annotation, ITEMSTREAMRESULT flag) is exercised by the bounded harness only",
+                        "expiry is decided at the housekeeping step following it (an expired, not yet housekept stream may still answer)"],
+    },
     "C14": {
         "modules": ["specs.socket_model", "specs.seqdict", "specs.opaque", "specs.storage_model", "contracts.nameserver_locks", "contracts.nameserver_map"],
         "contracts": ["Pyro5.nameserver.NameServer.count#map", "Pyro5.nameserver.NameServer.lookup#map", "Pyro5.nameserver.NameServer.register#map",
